@@ -595,3 +595,38 @@ func first(a, _ []byte) []byte { return a }
 //@     invariant slotOf(ref, t) && ref.obj != n.pointer
 //@     invariant n.tag != 4 || ref.obj == t
 //@     decreases len(keyS) - depth
+
+// HeapOKN: the class-invariant part of the tree invariant (no leaf clause): what the
+// shared descent helpers need.
+//@ spec HeapOKN() = forallref(o, implies(inT(o) && allocated(o) && o != nil, NodeOK(o)))
+//@ spec isLeafRef(r) = r.tag == 4
+
+//@ func minimum
+//@   requires ref.pointer == nil || okRef(ref)
+//@   requires HeapOKN()
+//@   ensures[nil_iff_empty] (result == nil) == (ref.pointer == nil)
+//@   ensures[leaf] implies(result != nil, inT(result) && atype(result) == leafT())
+//@   assigns nothing
+//@   loop 1 (ref)
+//@     invariant okRef(ref)
+//@   loop 2 (idx)
+//@     invariant 0 <= idx && idx <= 256 && cntNZ(n48.keys, idx) == 0
+//@     decreases 256 - idx
+//@   loop 3 (idx)
+//@     invariant 0 <= idx && idx <= 256 && cntP(n256.children, idx) == 0
+//@     decreases 256 - idx
+
+//@ func maximum
+//@   requires ref.pointer == nil || okRef(ref)
+//@   requires HeapOKN()
+//@   ensures[nil_iff_empty] (result == nil) == (ref.pointer == nil)
+//@   ensures[leaf] implies(result != nil, inT(result) && atype(result) == leafT())
+//@   assigns nothing
+//@   loop 1 (ref)
+//@     invariant okRef(ref)
+//@   loop 2 (idx)
+//@     invariant 0 - 1 <= idx && idx <= 255 && cntNZ(n48.keys, 256) == cntNZ(n48.keys, idx + 1)
+//@     decreases idx + 1
+//@   loop 3 (idx)
+//@     invariant 0 - 1 <= idx && idx <= 255 && cntP(n256.children, 256) == cntP(n256.children, idx + 1)
+//@     decreases idx + 1
